@@ -334,9 +334,15 @@ func (j *c07Judge) judge(kind string, items []ref.RtmpMsg, tailSlack int, vTicks
 	// audio
 	astart := -1
 	if len(rv.aFrames) > 0 {
+		// the run is anchored at the first received frame that carries a tag: the tiny frames (TinyAac / TinyAudio) are
+		// not unique, so a stream whose first forwarded frame is one of them cannot be located by that frame
+		anchor := 0
+		for anchor < len(rv.aFrames)-1 && len(rv.aFrames[anchor]) <= 8 {
+			anchor++
+		}
 		for k, fi := range j.src.aFrames {
-			if bytes.Equal(es.Frames[fi].Audio, rv.aFrames[0]) {
-				astart = k
+			if bytes.Equal(es.Frames[fi].Audio, rv.aFrames[anchor]) {
+				astart = k - anchor
 				break
 			}
 		}
